@@ -127,6 +127,12 @@ theorem safe_asStr (v : Val) : Safe env (asStr v) (fun _ => True) := by
   cases v <;> first | exact Safe.bad env _ _ (by decide) | exact Safe.pure env _ trivial
 theorem safe_asTy (v : Val) : Safe env (asTy v) (fun _ => True) := by
   cases v <;> first | exact Safe.bad env _ _ (by decide) | exact Safe.pure env _ trivial
+theorem safe_asArgV (v : Val) : Safe env (asArgV v) (fun _ => True) := by
+  cases v <;> first | exact Safe.bad env _ _ (by decide) | exact Safe.pure env _ trivial
+theorem safe_asIelV (v : Val) : Safe env (asIelV v) (fun _ => True) := by
+  cases v <;> first | exact Safe.bad env _ _ (by decide) | exact Safe.pure env _ trivial
+theorem safe_asPelV (v : Val) : Safe env (asPelV v) (fun _ => True) := by
+  cases v <;> first | exact Safe.bad env _ _ (by decide) | exact Safe.pure env _ trivial
 
 theorem goodVals_iff (l : List Val) : GoodVals I l ↔ ∀ x ∈ l, GoodVal I x := by
   induction l with
@@ -269,6 +275,9 @@ macro "sstep" : tactic => `(tactic| first
   | with_reducible refine Safe.bind _ (Safe.map _ (safe_asTok _) (fun _ _ => trivial) (Q := fun _ => True)) (fun _ _ => ?_)
   | with_reducible refine Safe.bind _ (Safe.mapM _ (P := fun _ => True) _ _ (fun _ _ => ?_)) (fun _ _ => ?_)
   | with_reducible exact safe_simpleType (by assumption) _ _ (by assumption) (by assumption)
+  | with_reducible exact safe_asArgV _
+  | with_reducible exact safe_asIelV _
+  | with_reducible exact safe_asPelV _
   | with_reducible exact safe_recoveryAction (by assumption) _ (by assumption)
   | with_reducible refine Safe.pure _ _ ?_
   | (with_reducible refine Safe.bad _ _ _ ?_) <;> decide)
